@@ -119,7 +119,12 @@ def run(ctx, rep):
         else:
             rep.discharged("C09/T2/lm=%d" % lm, "every Σ_t summand has energy degree 1",
                            derivation="%d leaves analysed" % n_leaves)
-    rep.analysed = {"step_vector_terms": nvec, "sum_reductions": nsum}
+    ntau = step_extensivity(ctx, rep)
+    nn = normalisation_steps(ctx, rep)
+    rep.analysed = {"step_vector_terms": nvec, "sum_reductions": nsum, "normalisation_step_vectors": nn}
+    rep.floor("normalisation-step-vectors", nn, 10)
+    rep.analysed["step_extensivity_leaves"] = ntau
+    rep.floor("step-extensivity-leaves", ntau, 2 * 12 * 30)
     rep.floor("step-vectors", nvec, 100)
     rep.floor("sum-reductions", nsum, 50)
 
@@ -132,3 +137,120 @@ def origin_of(A, at):
     txt = A.show_atom(at, 4)
     tag = "cogen" if "COGEN" in txt else "other"
     return "%s/%s" % ("+".join(names), tag)
+
+
+def normalisation_steps(ctx, rep):
+    """T1 on the normalisation of components (completion of ambient / solar production, auxiliary
+    shares): per-step vectors are only combined point-wise or summed, and no callable applied along
+    the step axis carries state from one step to the next."""
+    lib = ctx.lib
+    nb = ctx.find_public_fn(lib, "Components::normalize")
+    ev, r, _a = ctx.eval_entry("lib", nb)
+    where = loc_of(nb)
+    roots = [r]
+    for info in ev.loops_info.values():
+        roots.extend(info["next"])
+    memo = {}
+    bad = {}
+    n = 0
+    seen = set()
+    for root in roots:
+        for t in tm.subterms(root):
+            if t.id in seen:
+                continue
+            seen.add(t.id)
+            if is_step_vector(t, memo):
+                n += 1
+            if t.op == "stateful":
+                bad.setdefault("stateful-closure", t)
+            if t.op in POSITIONAL and t.op not in ("sort_by_key", "sorted"):
+                target = t.a[0] if isinstance(t.a[0], tm.T) else None
+                if target is not None and (is_step_vector(target, memo) or iter_over_steps(target, memo)):
+                    # index(values, i) with i the bound variable of a range comprehension is point-wise
+                    if t.op == "index" and len(t.a) > 1 and isinstance(t.a[1], tm.T) and t.a[1].op == "bv":
+                        continue
+                    bad.setdefault(t.op, t)
+    for k, t in sorted(bad.items()):
+        rep.violated("C09/T1/normalize/%s" % k, "normalisation treats every time step independently of its position", construct=where,
+                     why=("a closure applied along the step axis writes a captured variable (state flows from one step to the next): %s"
+                          if k == "stateful-closure" else "'%s' applied to a per-step vector: %%s" % k) % tm.show(t, 3)[:300])
+    if not bad:
+        rep.discharged("C09/T1/normalize", "normalisation combines per-step vectors point-wise or by plain sums, with stateless callables",
+                       derivation="%d per-step vector terms" % n)
+    return n
+
+
+def step_extensivity(ctx, rep):
+    """T2': a third degree, the power of the step length h (every step split in m parts: h -> h/m).
+    Declared per-step energies scale with h; Σ_t lowers the power by one; annual results and ratios have
+    power 0, per-step result vectors the power of their energy degree.  A comparison must be homogeneous
+    in h too (a per-step energy against an annual one is not), unless it is one of the thresholds the
+    property text admits."""
+    from fractions import Fraction
+    from epbd import degree
+    n = 0
+    for lm in (False, True):
+        e = epmodel.ep(ctx, lm)
+        where = loc_of(e.body)
+        A = alg.Algebra()
+        base2 = epdeg.base_degree_fn(e)
+
+        def base3(atom):
+            d = base2(atom)
+            if d is None:
+                return None
+            if atom.key == ("nsteps",):
+                return (Fraction(0), Fraction(0), Fraction(-1))
+            return (d[0], d[1], d[0] if atom.kind == "elt" else Fraction(0))
+
+        def admitted(at, d):
+            return epdeg.admitted_guard(at, d)
+        D = degree.DegreeAnalysis(A, base3, admitted, dim=3)
+        memo = {}
+        bad = {}
+        for (ci, cname, pres, bc) in e.carriers():
+            if pres is tm.FALSE:
+                continue
+            for p, t, gates in leaves(bc, ()):
+                if p[0] == "carrier":
+                    continue
+                try:
+                    poly = A.pw(t)
+                except alg.NotScalar:
+                    continue
+                n += 1
+                d = D.poly(poly)
+                if d in ("zero", None):
+                    continue
+                vec = is_step_vector(t, memo)
+                want = d[0] if vec else Fraction(0)
+                if d[2] != want:
+                    bad.setdefault(pstr(p), (cname, d))
+        for name in ("balance", "rer", "rer_nrb", "rer_onst"):
+            for p, t, gates in leaves(e.field(name), (name,)):
+                if len(p) > 1 and p[1] == "needs":
+                    continue
+                try:
+                    d = D.poly(A.scalar(t))
+                except alg.NotScalar:
+                    continue
+                n += 1
+                if d not in ("zero", None) and d[2] != 0:
+                    bad.setdefault(pstr(p), ("total", d))
+        for k, (cname, d) in sorted(bad.items())[:10]:
+            rep.violated("C09/T2/step-power/%s/lm=%d" % (k, lm), "results are invariant when every step is split into equal sub-steps",
+                         construct=where, why="%s (%s) scales with the step length to the power %s" % (k, cname, d[2]))
+        guards = [(k, s_) for k, s_ in D.issues if k == "scale-dependent-guard"]
+        seen = set()
+        for k, s_ in guards:
+            key = "C09/T2/step-guard/lm=%d/%d" % (lm, len(seen))
+            if s_ in seen:
+                continue
+            seen.add(s_)
+            rep.violated(key, "a comparison does not change when every step is split into equal sub-steps", construct=where,
+                         why="the two sides scale differently with the step length (or energy scale): %s" % s_[:300])
+        if not bad and not guards:
+            rep.discharged("C09/T2/step-power/lm=%d" % lm, "annual results and ratios have step-length power 0, per-step vectors that of their energy; "
+                           "guards are homogeneous in the step length (admitted: the 1e-3 thresholds the property names)",
+                           derivation="%d leaves, %d comparisons" % (n, len(D.guards)))
+    return n
